@@ -84,8 +84,13 @@ class SMach(VecMachine):
                 return v
         if k == 'Bin' and e['op'] == '-' and 'unsigned' in (e.get('ty') or ''):
             a, b = self.ev(e['lhs']), self.ev(e['rhs'])
-            if isinstance(a, int) and isinstance(b, int) and a - b < 0:
-                raise Fault('unsigned length wraps (%d - %d)' % (a, b))
+            if isinstance(a, int) and isinstance(b, int):
+                if a - b < 0:
+                    raise Fault('unsigned length wraps (%d - %d)' % (a, b))
+                return a - b
+            if isinstance(a, It):
+                return self.itop('-', a, b)
+            raise Unsupported('subtraction of %r and %r' % (a, b))
         if k == 'Bin' and e['op'] == '-=':
             pass
         return super().ev(e)
